@@ -128,7 +128,8 @@ def run(a, prop, modname, shards, cases, seconds, work, t0):
 
     # ---------------------------------------------------------------- directed + random phases
     procs = []
-    dentries = [{'id': e['key'], 'case': e['witness']} for e in findings if e.get('witness') is not None]
+    # several witnesses may share a mechanism key: the directed id is key#position
+    dentries = [{'id': f"{e['key']}#{n}", 'case': e['witness']} for n, e in enumerate(findings) if e.get('witness') is not None]
     if dentries:
         dfile = os.path.join(work, 'directed.json')
         with open(dfile, 'w') as f:
@@ -163,8 +164,8 @@ def run(a, prop, modname, shards, cases, seconds, work, t0):
             inconclusive.append(f'directed phase failed ({status}): ' + ((r or {}).get('harness_error') or so)[-600:])
         else:
             byid = {d['id']: d for d in r['directed']}
-            for e in findings:
-                d = byid.get(e['key'])
+            for n, e in enumerate(findings):
+                d = byid.get(f"{e['key']}#{n}")
                 if d is None:
                     continue
                 if 'error' in d:
